@@ -1,0 +1,343 @@
+//go:build verif
+
+// Package verifhook re-exports, behind neutral data types, the entry points
+// an external verification harness needs. It is compiled only with the build
+// tag "verif"; without the tag the package has no files and is ignored by
+// `go build ./...` and `go test ./...`.
+package verifhook
+
+import (
+	gotoken "go/token"
+	gotypes "go/types"
+	"io"
+	"sort"
+
+	"github.com/dcaiafa/lox/internal/base/errlogger"
+	"github.com/dcaiafa/lox/internal/codegen"
+	"github.com/dcaiafa/lox/internal/lexergen/dfa"
+	"github.com/dcaiafa/lox/internal/lexergen/mode"
+	"github.com/dcaiafa/lox/internal/lexergen/rang3"
+	"github.com/dcaiafa/lox/internal/parsergen/lr1"
+)
+
+// ---------------------------------------------------------------------------
+// Generation entry points
+// ---------------------------------------------------------------------------
+
+func newCfg(dir string, diag, report io.Writer) *codegen.Config {
+	fset := gotoken.NewFileSet()
+	return &codegen.Config{
+		Fset:   fset,
+		Errs:   errlogger.New(fset, diag),
+		Dir:    dir,
+		Report: report,
+	}
+}
+
+// Generate is exactly what cmd/lox does after flag parsing.
+func Generate(dir string, diag, report io.Writer) bool {
+	return codegen.Generate(newCfg(dir, diag, report))
+}
+
+// GenerateFast is Generate with packages.Load replaced by go/types + imp.
+func GenerateFast(dir string, imp gotypes.Importer, pkgPath string, diag, report io.Writer) bool {
+	return codegen.VerifGenerateFast(newCfg(dir, diag, report), imp, pkgPath)
+}
+
+// GenerateLexerOnly writes base.gen.go and lexer.gen.go only.
+func GenerateLexerOnly(dir string, diag, report io.Writer) bool {
+	return codegen.VerifGenerateLexerOnly(newCfg(dir, diag, report))
+}
+
+// ---------------------------------------------------------------------------
+// Automata dumps
+// ---------------------------------------------------------------------------
+
+// Symbols in dumps: terminal t is t (>= 0), rule r is -(r+1).
+
+type ProdDump struct {
+	Rule  int
+	Terms []int
+	Prec  int
+	Right bool
+}
+
+type ActionDump struct {
+	Terminal int
+	Kind     int // 0 shift, 1 reduce, 2 accept
+	Target   int // shift: state; reduce: production
+	Prods    []int
+}
+
+type StateDump struct {
+	Items   [][3]int // prod, dot, lookahead
+	Actions []ActionDump
+	Gotos   [][2]int // rule, state
+	Shifts  [][2]int // terminal, state (transitions on terminals)
+}
+
+type ParserDump struct {
+	Terminals    []string
+	Aliases      []string
+	Rules        []string
+	Prods        []ProdDump
+	States       []StateDump
+	HasConflicts bool
+}
+
+type TransDump struct {
+	B, E rune
+	To   int
+}
+
+type LexActionDump struct {
+	Type     int // mode.ActionType: 1 push, 2 pop, 3 accept, 4 discard, 5 accum
+	Terminal int
+	Mode     string
+}
+
+type LexStateDump struct {
+	ID        int
+	Accept    bool
+	NonGreedy bool
+	Trans     []TransDump
+	Actions   []LexActionDump
+}
+
+type ModeDump struct {
+	Name   string
+	Index  int
+	States []LexStateDump
+}
+
+type FrontEnd struct {
+	OK     bool
+	Parser *ParserDump
+	Modes  []ModeDump
+}
+
+// ParseLox runs the real ParseLox stage on dir and dumps what it built.
+func ParseLox(dir string, diag, report io.Writer) *FrontEnd {
+	fe, ok := codegen.VerifParseLox(newCfg(dir, diag, report))
+	out := &FrontEnd{OK: ok}
+	if fe.Grammar != nil && fe.Table != nil {
+		out.Parser = dumpParser(fe.Grammar, fe.Table)
+	}
+	if fe.Modes != nil {
+		out.Modes = dumpModes(fe.Modes)
+	}
+	return out
+}
+
+func symOf(t lr1.Term) int {
+	switch t := t.(type) {
+	case *lr1.Terminal:
+		return t.Index
+	case *lr1.Rule:
+		return -(t.Index + 1)
+	}
+	panic("unknown term")
+}
+
+func dumpParser(g *lr1.Grammar, t *lr1.ParserTable) *ParserDump {
+	d := &ParserDump{HasConflicts: t.HasConflicts}
+	for _, term := range g.Terminals {
+		d.Terminals = append(d.Terminals, term.Name)
+		d.Aliases = append(d.Aliases, term.Alias)
+	}
+	for _, r := range g.Rules {
+		d.Rules = append(d.Rules, r.Name)
+	}
+	for _, p := range g.Prods {
+		pd := ProdDump{Rule: p.Rule.Index, Prec: p.Precedence, Right: p.Associativity == lr1.Right}
+		for _, term := range p.Terms {
+			pd.Terms = append(pd.Terms, symOf(term))
+		}
+		d.Prods = append(d.Prods, pd)
+	}
+	for _, s := range t.States {
+		var sd StateDump
+		for _, it := range s.Items() {
+			sd.Items = append(sd.Items, [3]int{it.Prod, it.Dot, it.Lookahead})
+		}
+		am := t.Actions(s)
+		for _, term := range am.Terminals() {
+			for _, a := range am.Get(term).Elements() {
+				ad := ActionDump{Terminal: term.Index}
+				switch a.Type {
+				case lr1.ActionShift:
+					ad.Kind = 0
+					ad.Target = a.ShiftState.Index
+				case lr1.ActionReduce:
+					ad.Kind = 1
+					ad.Target = a.Prods[0].Index
+				case lr1.ActionAccept:
+					ad.Kind = 2
+				}
+				for _, p := range a.Prods {
+					ad.Prods = append(ad.Prods, p.Index)
+				}
+				sd.Actions = append(sd.Actions, ad)
+			}
+		}
+		tm := t.Transitions(s)
+		for _, in := range tm.Inputs() {
+			to := tm.Get(in)
+			switch in := in.(type) {
+			case *lr1.Rule:
+				sd.Gotos = append(sd.Gotos, [2]int{in.Index, to.Index})
+			case *lr1.Terminal:
+				sd.Shifts = append(sd.Shifts, [2]int{in.Index, to.Index})
+			}
+		}
+		d.States = append(d.States, sd)
+	}
+	return d
+}
+
+func dumpModes(modes map[string]*mode.Mode) []ModeDump {
+	var out []ModeDump
+	for _, m := range modes {
+		if m == nil {
+			continue
+		}
+		md := ModeDump{Name: m.Name, Index: m.Index}
+		for _, s := range m.DFA.States {
+			sd := LexStateDump{ID: int(s.ID), Accept: s.Accept, NonGreedy: s.NonGreedy}
+			s.Transitions.ForEach(func(in any, to *dfa.State) {
+				r := in.(rang3.Range)
+				sd.Trans = append(sd.Trans, TransDump{B: r.B, E: r.E, To: int(to.ID)})
+			})
+			sort.Slice(sd.Trans, func(i, j int) bool { return sd.Trans[i].B < sd.Trans[j].B })
+			if acts, ok := s.Data.(*mode.Actions); ok && acts != nil {
+				for _, a := range acts.Actions {
+					sd.Actions = append(sd.Actions, LexActionDump{Type: int(a.Type), Terminal: a.Terminal, Mode: a.Mode})
+				}
+			}
+			md.States = append(md.States, sd)
+		}
+		out = append(out, md)
+	}
+	sort.Slice(out, func(i, j int) bool { return out[i].Index < out[j].Index })
+	return out
+}
+
+// ---------------------------------------------------------------------------
+// Direct drivers for lr1 (no .lox text involved)
+// ---------------------------------------------------------------------------
+
+// GrammarSpec describes a grammar for BuildLALR. Terminal 0 (EOF) and 1
+// (ERROR) are implicit; Terminals lists the additional ones, which get the
+// indices 2, 3, ... Rule 0 (S') is implicit; Rules lists the user rules, which
+// get the indices 1, 2, ... Symbols inside productions use the dump encoding.
+type GrammarSpec struct {
+	Terminals []string
+	Rules     []string
+	Start     int // rule index (>= 1)
+	Prods     []ProdDump
+}
+
+func buildGrammar(spec *GrammarSpec) *lr1.Grammar {
+	g := lr1.NewGrammar()
+	for _, name := range spec.Terminals {
+		g.AddTerminal(name)
+	}
+	for _, name := range spec.Rules {
+		g.AddRule(name)
+	}
+	toTerm := func(s int) lr1.Term {
+		if s >= 0 {
+			return g.Terminals[s]
+		}
+		return g.Rules[-s-1]
+	}
+	for _, p := range spec.Prods {
+		terms := make([]lr1.Term, len(p.Terms))
+		for i, s := range p.Terms {
+			terms[i] = toTerm(s)
+		}
+		prod := g.AddProd(g.Rules[p.Rule], terms...)
+		prod.Precedence = p.Prec
+		if p.Right {
+			prod.Associativity = lr1.Right
+		}
+	}
+	g.SetStart(g.Rules[spec.Start])
+	return g
+}
+
+// BuildLALR runs lr1.ConstructLALR on spec.
+func BuildLALR(spec *GrammarSpec) *ParserDump {
+	g := buildGrammar(spec)
+	return dumpParser(g, lr1.ConstructLALR(g))
+}
+
+// First runs lr1.First on a symbol string of spec. The result lists terminal
+// indices; -1 stands for epsilon.
+func First(spec *GrammarSpec, syms []int) []int {
+	g := buildGrammar(spec)
+	terms := make([]lr1.Term, len(syms))
+	for i, s := range syms {
+		if s >= 0 {
+			terms[i] = g.Terminals[s]
+		} else {
+			terms[i] = g.Rules[-s-1]
+		}
+	}
+	set := lr1.First(g, terms)
+	var out []int
+	set.ForEach(func(t *lr1.Terminal) {
+		if t == lr1.Epsilon {
+			out = append(out, -1)
+		} else {
+			out = append(out, t.Index)
+		}
+	})
+	sort.Ints(out)
+	return out
+}
+
+// ---------------------------------------------------------------------------
+// rang3
+// ---------------------------------------------------------------------------
+
+type Range = rang3.Range
+
+const MaxRune = rang3.MaxRune
+
+type FlattenCall struct{ OA, OB, N Range }
+
+// Flatten runs rang3.Flatten on a copy of ranges and records the callbacks.
+func Flatten(ranges []Range) ([]Range, []FlattenCall) {
+	in := append([]Range(nil), ranges...)
+	var calls []FlattenCall
+	out := rang3.Flatten(in, func(oa, ob, n Range) {
+		calls = append(calls, FlattenCall{oa, ob, n})
+	})
+	return append([]Range(nil), out...), calls
+}
+
+// Subtract runs rang3.Subtract on copies.
+func Subtract(a, b []Range) []Range {
+	out := rang3.Subtract(append([]Range(nil), a...), append([]Range(nil), b...))
+	return append([]Range(nil), out...)
+}
+
+type NormalizeCall struct{ O, A, B, C Range }
+
+// Normalize runs rang3.Normalize on a copy and records the callbacks.
+func Normalize(ranges []Range) []NormalizeCall {
+	var calls []NormalizeCall
+	rang3.Normalize(append([]Range(nil), ranges...), func(o, a, b, c Range) {
+		calls = append(calls, NormalizeCall{o, a, b, c})
+	})
+	return calls
+}
+
+// ---------------------------------------------------------------------------
+// table encoder
+// ---------------------------------------------------------------------------
+
+func EncodeTable(indices []int, rows [][]int32) []int32 {
+	return codegen.VerifEncodeTable(indices, rows)
+}
